@@ -28,7 +28,7 @@ theorem marshal_eq (g : Graph) (root : Nat) :
 theorem cyclicFrom_iff_infinite_path (g : Graph) (root : Nat) :
     Spec.Json.cyclicFrom g root = true ↔
       ∃ p : Nat → Nat, p 0 = root ∧ ∀ i, ∃ cs, g[p i]? = some cs ∧ p (i + 1) ∈ cs :=
-  Lemmas.JsonCycle.cyclicFrom_iff_infinite_path
+  Lemmas.JsonCycle.cyclicFrom_iff_infinite_path g root
 
 /-- the same for every detection threshold and every sufficient budget (so the theorem does not depend on the value 1000) -/
 theorem enc_root_eq (T : Nat) (g : Graph) (fuel root : Nat)
